@@ -139,12 +139,17 @@ type chainT struct {
 	k     kind
 }
 
-func newChain(k kind) *chainT {
+func newChain(k kind) *chainT { return newChainMTB(k, 0) }
+
+func newChainMTB(k kind, mtb int) *chainT {
+	if mtb == 0 {
+		mtb = 1000
+	}
 	v := k.vals()
 	cfg := config.Blockchain{
 		ProtocolConfiguration: config.ProtocolConfiguration{
 			Magic:                       magic,
-			MaxTraceableBlocks:          1000,
+			MaxTraceableBlocks:          uint32(mtb),
 			MaxBlockSystemFee:           900000000000,
 			MaxValidUntilBlockIncrement: 100,
 			TimePerBlock:                1000000000,
@@ -195,6 +200,7 @@ var (
 	accP = mkAcct("poor")
 	accX = mkAcct("outsider") // never funded, not a validator
 	accS = mkAcct("stale")    // sender of the transaction that is pooled and then loses its validity
+	accK = mkAcct("K")        // blocked by Policy.blockAccount in every state
 )
 
 // ---- transactions ----------------------------------------------------------------
@@ -353,12 +359,34 @@ func mkBlock(f hdrFields, txs []*transaction.Transaction) *block.Block {
 	return b
 }
 
+// merkleOf is the harness' own Merkle root (pairwise double SHA-256 over the big-endian hash bytes, an
+// odd last element paired with itself, zero for no transactions) - not the repository's CalcMerkleRoot.
 func merkleOf(txs []*transaction.Transaction) util.Uint256 {
-	hs := make([]util.Uint256, len(txs))
-	for i, t := range txs {
-		hs[i] = t.Hash()
+	if len(txs) == 0 {
+		return util.Uint256{}
 	}
-	return hash.CalcMerkleRoot(hs)
+	level := make([][]byte, len(txs))
+	for i, t := range txs {
+		level[i] = t.Hash().BytesBE()
+	}
+	for len(level) > 1 {
+		var next [][]byte
+		for i := 0; i < len(level); i += 2 {
+			j := i + 1
+			if j == len(level) {
+				j = i
+			}
+			a := sha256.Sum256(append(append([]byte{}, level[i]...), level[j]...))
+			b := sha256.Sum256(a[:])
+			next = append(next, b[:])
+		}
+		level = next
+	}
+	u, err := util.Uint256DecodeBytesBE(level[0])
+	if err != nil {
+		panic(err)
+	}
+	return u
 }
 
 // wire sends the block through the binary encoding the way a peer receives it.
